@@ -141,8 +141,21 @@ func NewNet() *Net {
 // slotKey identifies a slot list by caller and host name: every simulated
 // source has its own host name, so the host identifies the source whatever
 // path or query the library appends (OCSP GET).
-func slotKey(caller int, host string) string {
-	return fmt.Sprintf("%d|%s", caller, strings.ToLower(host))
+func slotKey(caller int, id string) string {
+	return fmt.Sprintf("%d|%s", caller, id)
+}
+
+// normURL is scheme://host/path?query with scheme and host in lower case.
+func normURL(u string) string {
+	p, err := url.Parse(u)
+	if err != nil || p.Host == "" {
+		return "unparsable:" + u
+	}
+	s := "url:" + strings.ToLower(p.Scheme) + "://" + strings.ToLower(p.Host) + p.EscapedPath()
+	if p.RawQuery != "" {
+		s += "?" + p.RawQuery
+	}
+	return s
 }
 
 func hostOf(u string) string {
@@ -150,13 +163,19 @@ func hostOf(u string) string {
 	if err != nil || p.Host == "" {
 		return "unparsable:" + u
 	}
-	return p.Host
+	return strings.ToLower(p.Host)
 }
 
 // Plan registers an exchange for (caller, url); successive Plans for the same
 // pair are successive attempts.
 func (n *Net) Plan(caller int, x *Exchange) *Exchange {
 	k := slotKey(caller, hostOf(x.URL))
+	if x.Kind == "crl" || x.Kind == "delta" {
+		// CRL locations are requested verbatim: identify the slot by the whole
+		// URL, so that two locations on one host are never confused (whichever
+		// of them the library asks first, or not at all because of a cache)
+		k = slotKey(caller, normURL(x.URL))
+	}
 	sl := n.slots[k]
 	if sl == nil {
 		sl = &slotList{}
@@ -234,8 +253,10 @@ func (n *Net) RoundTrip(req *http.Request) (*http.Response, error) {
 		}
 	}
 	caller := callerOf(ctx)
-	key := slotKey(caller, req.URL.Host)
-	_ = u
+	key := slotKey(caller, normURL(u))
+	if _, ok := n.slots[key]; !ok {
+		key = slotKey(caller, strings.ToLower(req.URL.Host))
+	}
 	sl := n.slots[key]
 	if sl == nil || sl.next >= len(sl.xs) {
 		return n.unplanned(req, reqBody, caller)
@@ -340,9 +361,16 @@ func (n *Net) respond(x *Exchange, req *http.Request, reqBody []byte, f Fault) (
 	}
 	x.Rec.Status = status
 	x.Rec.Returned, x.Rec.TReturn, x.Rec.Outcome = true, now, "response"
+	// half of the servers announce the body length (decided from static
+	// properties of the slot), the others stream; endless bodies never do
+	cl := int64(-1)
+	if x.Rec.BodyLen >= 0 && (x.CertPos+x.SrcIdx+x.Attempt+len(x.Kind))%2 == 0 {
+		cl = x.Rec.BodyLen
+		hdr.Set("Content-Length", fmt.Sprint(cl))
+	}
 	return &http.Response{
 		StatusCode: status, Status: fmt.Sprintf("%d %s", status, http.StatusText(status)),
-		Header: hdr, Body: b, Request: req, ProtoMajor: 1, ProtoMinor: 1, ContentLength: -1,
+		Header: hdr, Body: b, Request: req, ProtoMajor: 1, ProtoMinor: 1, ContentLength: cl,
 	}, nil
 }
 
